@@ -446,4 +446,92 @@ example : outcome (evalI 3 (.ifE (.bool true) (.int 1) (.int 2))) {} = .ok (.int
 example : outcome (evalI 3 (.ifE (.bool false) (.int 1) (.int 2))) {} = .ok (.int 2) := rfl
 example : outcome (evalI 3 (.ifE (.int 5) (.int 1) (.int 2))) {} = .ok (err "condition is not a boolean") := rfl
 
+/-! ## 4. statement lists: left to right, threading the state; the value is the last statement's -/
+
+/-- a statement that ran to a non-stopping value: the list continues with the rest, in the state the
+statement left, carrying its value -/
+theorem C01.stmts_cons_continue (f : Nat) (s : Node) (rest : List Node) (res v : Obj) (st : St)
+    (hs : s ≠ .comment) (h : outcome (evalI f s) st = .ok v) (hv : v.stops = false) :
+    SameRun (evalStatements (f + 1) (s :: rest) res) st (evalStatements f rest v) (stateAfter (evalI f s) st) := by
+  rw [C15.evalStatements_cons _ _ _ _ hs]
+  refine (C01.sameRun_bind_ok _ _ _ _ h).trans ?_
+  simp only [hv, Bool.false_eq_true, if_false]
+  exact SameRun.refl _ _
+
+/-- a statement whose value is an error or a `return`/`break`/`continue` value stops the list: the rest is
+NOT evaluated, value and state are the statement's -/
+theorem C01.stmts_cons_stops (f : Nat) (s : Node) (rest : List Node) (res v : Obj) (st : St)
+    (hs : s ≠ .comment) (h : outcome (evalI f s) st = .ok v) (hv : v.stops = true) :
+    SameRun (evalStatements (f + 1) (s :: rest) res) st (evalI f s) st := by
+  rw [C15.evalStatements_cons _ _ _ _ hs]
+  refine (C01.sameRun_bind_ok _ _ _ _ h).trans ?_
+  simp only [hv]
+  exact ⟨h.symm, rfl⟩
+
+/-- a statement that stopped abnormally stops the list -/
+theorem C01.stmts_cons_stop (f : Nat) (s : Node) (rest : List Node) (res : Obj) (st : St) (e : Stop)
+    (hs : s ≠ .comment) (h : outcome (evalI f s) st = .error e) :
+    outcome (evalStatements (f + 1) (s :: rest) res) st = .error e
+    ∧ stateAfter (evalStatements (f + 1) (s :: rest) res) st = stateAfter (evalI f s) st := by
+  rw [C15.evalStatements_cons _ _ _ _ hs]
+  exact C01.bind_err _ _ _ e h
+
+/-- a one-statement list is the statement -/
+theorem C01.stmts_singleton (f : Nat) (s : Node) (res : Obj) (hs : s ≠ .comment) :
+    evalStatements (f + 2) [s] res = evalI (f + 1) s := by
+  rw [C15.evalStatements_cons _ _ _ _ hs]
+  have : ∀ r : Obj, (if r.stops then pure r else evalStatements (f + 1) [] r : M Obj) = pure r := by
+    intro r; rw [C15.evalStatements_nil]; split <;> rfl
+  simp only [this, bind_pure]
+
+/-- the value of a list is the value of its LAST statement, evaluated in the state the statements before it
+left (when none of them stopped the list) -/
+theorem C01.stmts_last (n : Nat) (a : List Node) (s : Node) (res r : Obj) (st : St)
+    (hres : res.stops = false) (hs : s ≠ .comment)
+    (ha : outcome (evalStatements (n + 1 + a.length + 1) a res) st = .ok r) (hr : r.stops = false) :
+    SameRun (evalStatements (n + 1 + a.length + 1) (a ++ [s]) res) st (evalI (n + 1) s)
+      (stateAfter (evalStatements (n + 1 + a.length + 1) a res) st) := by
+  have h := C15.chunks_outcome_gen (n + 1) a [s] res r st hres ha hr
+  rw [C01.stmts_singleton n s r hs] at h
+  exact h
+
+example : outcome (evalStatements 4 ([.int 1, .int 2] ++ [.int 3]) .null) {} = .ok (.int 3) := rfl
+example : outcome (evalStatements 4 [.int 1, .ret (.int 2), .ident "nosuch"] .null) {} = .ok (.ret (.int 2) "RETURN") := rfl
+
+/-! ## 6. prefix operators -/
+
+/-- `!e`, `-e`, `+e`, `^e`/`~e`: the operand is evaluated (through `Eval`), an error value propagates,
+otherwise `evalPrefixOp` applies -/
+theorem C01.evalI_pre (f : Nat) (op : String) (right : Node) (hop : (op == "INCR" || op == "DECR") = false) :
+    evalI (f + 1) (.pre op right) = C15.enter (do
+      let r ← eval f right
+      if r.isError then pure r else pure (evalPrefixOp op r)) := by
+  rw [evalI]; unfold C15.enter; congr 1; funext st; congr 1; funext _
+  cases st.cfg.deadlineAfter <;> simp only [hop, Bool.false_eq_true, if_false]
+
+theorem C01.prefix_apply (f : Nat) (op : String) (right : Node) (st : St) (v : Obj)
+    (hd : st.cfg.deadlineAfter = none) (hop : (op == "INCR" || op == "DECR") = false)
+    (hr : outcome (eval f right) (C15.bump st) = .ok v) (he : v.isError = false) :
+    outcome (evalI (f + 1) (.pre op right)) st = .ok (evalPrefixOp op v)
+    ∧ stateAfter (evalI (f + 1) (.pre op right)) st = stateAfter (eval f right) (C15.bump st) := by
+  change SameRun _ st (pure (evalPrefixOp op v) : M Obj) _
+  rw [C01.evalI_pre f op right hop]
+  refine (C01.sameRun_enter _ st hd).trans ((C01.sameRun_bind_ok _ _ _ _ hr).trans ?_)
+  simp only [he, Bool.false_eq_true, if_false]
+  exact SameRun.refl _ _
+
+/-- the operator table of `evalPrefixExpression` -/
+theorem C01.prefix_table (i : Int64) (b : Bool) (fb : UInt64) (s : Grol.Wire.Bytes) :
+    evalPrefixOp "BANG" (.bool b) = .bool (!b) ∧ evalPrefixOp "BANG" .null = .bool true
+    ∧ evalPrefixOp "BANG" (.int i) = err "not of"
+    ∧ evalPrefixOp "MINUS" (.int i) = .int (-i) ∧ evalPrefixOp "MINUS" (.float fb) = .float (-(f64 fb)).toBits
+    ∧ evalPrefixOp "MINUS" (.str s) = err "minus of" ∧ evalPrefixOp "MINUS" (.bool b) = err "minus of"
+    ∧ evalPrefixOp "PLUS" (.int i) = .int i ∧ evalPrefixOp "PLUS" (.str s) = .str s
+    ∧ evalPrefixOp "BITNOT" (.int i) = .int (~~~i) ∧ evalPrefixOp "BITXOR" (.int i) = .int (~~~i)
+    ∧ evalPrefixOp "BITNOT" (.bool b) = err "bitwise not of" :=
+  ⟨rfl, rfl, rfl, rfl, rfl, rfl, rfl, rfl, rfl, rfl, rfl, rfl⟩
+
+example : outcome (evalI 3 (.pre "MINUS" (.int 5))) {} = .ok (.int (-5)) := rfl
+example : outcome (evalI 3 (.pre "BANG" (.bool true))) {} = .ok (.bool false) := rfl
+
 end Grol.E
